@@ -12,6 +12,7 @@ import (
 	"strconv"
 	"strings"
 	"testing"
+	"time"
 
 	"git.arvados.org/arvados.git/sdk/go/arvados"
 )
@@ -209,6 +210,12 @@ func TestVerifC16(t *testing.T) {
 	sc := bufio.NewScanner(in)
 	sc.Buffer(make([]byte, 1<<20), 1<<26)
 	for sc.Scan() {
-		fmt.Fprintln(w, verifC16Case(sc.Text()))
+		out := verifC16Case(sc.Text())
+		if strings.HasPrefix(out, "timeout") {
+			// a verdict must not depend on the load of the machine: run the case once more, alone
+			time.Sleep(100 * time.Millisecond)
+			out = verifC16Case(sc.Text())
+		}
+		fmt.Fprintln(w, out)
 	}
 }
